@@ -73,3 +73,28 @@ def qimx(a):
 
 
 QC_PREAMBLE = 'Definition qcm (n : Z) (d : positive) : Qc := Q2Qc (Qmake n d).\n'
+
+
+# ---- MPS / MPO literals for Model/Tensor.v ----
+def site(A, mxf=None):
+    """numpy array of shape (d, Dl, Dr) -> list of d matrices A[s]"""
+    mxf = mxf or gimx
+    A = np.asarray(A)
+    assert A.ndim == 3
+    return lst([mxf(A[s]) for s in range(A.shape[0])])
+
+
+def osite(W, mxf=None):
+    """numpy array of shape (d, d, Dl, Dr) -> list of lists of matrices W[s][t]"""
+    mxf = mxf or gimx
+    W = np.asarray(W)
+    assert W.ndim == 4
+    return lst([lst([mxf(W[s, t]) for t in range(W.shape[1])]) for s in range(W.shape[0])])
+
+
+def mps(psi, mxf=None):
+    return '(mkmps %s %s %s)' % (zlist(psi.qd), lst([zlist(q) for q in psi.qD]), lst([site(a, mxf) for a in psi.A]))
+
+
+def mpo(op, mxf=None):
+    return '(mkmpo %s %s %s)' % (zlist(op.qd), lst([zlist(q) for q in op.qD]), lst([osite(a, mxf) for a in op.A]))
